@@ -219,3 +219,90 @@ def heapqmerge(h):
             ctx.oblige('_heapqmergesorted: nothing is read from the runs before the merged stream is consumed (lazy), nothing is yielded besides the merged rows',
                        z3.And(ctx.pre_loop_out.len == 0 if getattr(ctx, 'after_loop', None) else z3.BoolVal(True), res.out.len == 0))
     h.explore(body)
+
+
+# ------------------------------------------------------------------------------------------------ mergesort
+@vc('C05.itermergesort', functions=[S_ + 'itermergesort'], props=['C05', 'C12'],
+    assumptions=['explicit header=, key given by name, two presorted sources (the comprehensions are uniform in their number)',
+                 '_shortlistmergesorted through its contract (C05.shortlist.*): recording summary', 'comparable_itemgetter: C04.comparable_itemgetter',
+                 'stateless-body rule for the standardising generator and for the merged stream'])
+def itermergesort(h):
+    """mergesort(header=H): every source is standardised row by row to the output fields -- cell q of a standardised row is the row's
+    cell under the FIRST source field named like output field q, `missing` if there is no such field or the row is too short --, the
+    standardised streams are merged in source order with the key resolved against the OUTPUT header and the caller's reverse flag, and
+    every merged row is yielded once, unchanged, after the header."""
+    from pyvc.interp import SrcIter
+    qn = S_ + 'itermergesort'
+    STD = qn + '.<locals>._standardisedata'
+
+    def body(ctx):
+        box = {}
+
+        def merged(interp, args, kw, node):
+            box['merge_args'] = list(args)
+            M = sym_table(ctx, 'M', nmin=0)
+            box['M'] = M
+            return SrcIter(M.rows, M.n, 'merged')
+
+        def d_merge(ls, x, dout):
+            ctx.oblige('itermergesort: every merged row is yielded once, as it is', z3.And(dout.len == 1, z3.Select(dout.arr, 0) == as_v(x)))
+        it = h.interp(ctx, loops={(qn, 5): LoopSpec(delta=d_merge, label='merged rows')})
+        it.summaries[S_ + '_shortlistmergesorted'] = merged
+        getkey = UCall('getkey', may_raise=False)
+        it.summaries['petl.comparison.comparable_itemgetter'] = lambda interp, args, kw, node: (box.__setitem__('key_indices', list(args)), getkey)[1]
+        it.check_pulls = False
+        A, B = sym_table(ctx, 'A', nmin=1), sym_table(ctx, 'B', nmin=1)
+        rows_are_sequences(ctx, A); rows_are_sequences(ctx, B)
+        H = sym_seq(ctx, 'H', 'tuple')
+        missing, reverse = sym_cell('missing'), sym_bool('reverse')
+        res = run_generator(it, closure_of(it, qn), [PyList([A, B], 'list'), 'k', H, missing, reverse])
+        if res.exc is not None:
+            ctx.oblige('itermergesort: only FieldSelectionError escapes (key not among the output fields)', z3.BoolVal(res.exc.kind == 'FieldSelectionError'), res.exc.origin or '')
+            return
+        if not getattr(ctx, 'after_loop', None):
+            return
+        pre = ctx.pre_loop_out
+        ctx.oblige('itermergesort: the given header first, once; nothing after the merged rows', z3.And(pre.len == 1, _t(row_eq(out_row(pre, 0), H)), res.out.len == 0))
+        a = box.get('merge_args', [])
+        ok = len(a) == 4 and a[0] is getkey and a[1] is reverse and all(isinstance(g, bi.GenObj) and g.fn.qualname == STD for g in a[2:]) \
+            and [g.env.vars.get('it') for g in a[2:]] == [t.iterators[0] for t in (A, B)] and all(g.env.vars.get('ofs') is H for g in a[2:])
+        ctx.oblige('itermergesort: the merge gets the key function, the caller\'s reverse flag and one standardising stream per source, in source order, '
+                   'each over that source\'s data rows and the OUTPUT fields', z3.BoolVal(bool(ok)))
+        if not ok:
+            return
+        # ---- the standardising stream of the first source, run on its own (rectangular source: the short-row fallback is not entered)
+        g = a[2]
+        T = A
+        rectangular(ctx, T)
+        flds = g.env.lookup('hdr') if g.env.has('hdr') else None
+        S = lambda v: bi._strf(v)
+        hdrT = src_row(T, 0)
+
+        def d_std(ls, x, dout):
+            row = view_seq(x)
+            o = out_row(dout, 0)
+            q, p, p2 = smt.fresh_int('q'), smt.fresh_int('p'), smt.fresh_int('p2')
+            fl = ls['flds']
+            fl = fl if isinstance(fl, Seq) else view_seq(fl)
+            ctx.oblige('_standardisedata: the source field names are the text of the source header, in order',
+                       z3.And(fl.len == hdrT.len, z3.ForAll([p], z3.Implies(z3.And(0 <= p, p < fl.len), z3.Select(fl.arr, p) == S(z3.Select(hdrT.arr, p))))))
+            named = lambda pp, qq: smt.py_eq(z3.Select(fl.arr, pp), z3.Select(H.arr, qq))
+            ctx.oblige('_standardisedata: one output row per source row, as wide as the output header',
+                       z3.And(dout.len == 1, o.len == H.len))
+            ctx.oblige('_standardisedata: output cell q is the row\'s cell under the first source field named like output field q',
+                       z3.ForAll([q, p], z3.Implies(z3.And(0 <= q, q < H.len, 0 <= p, p < hdrT.len, named(p, q),
+                                                          z3.ForAll([p2], z3.Implies(z3.And(0 <= p2, p2 < p), z3.Not(named(p2, q))))),
+                                                   z3.Select(o.arr, q) == z3.Select(row.arr, p))))
+            ctx.oblige('_standardisedata: ... and `missing` when the source has no field of that name',
+                       z3.ForAll([q], z3.Implies(z3.And(0 <= q, q < H.len, z3.ForAll([p], z3.Implies(z3.And(0 <= p, p < hdrT.len), z3.Not(named(p, q))))),
+                                                z3.Select(o.arr, q) == missing.t)))
+        it.loop_specs[(qn, 3)] = LoopSpec(delta=d_std, label='source rows (standardising)')
+        res2 = run_generator(it, g.fn, [], out_name='std') if False else None
+        from pyvc.interp import Env
+        ctx.out = Seq(smt.fresh_arr('std'), z3.IntVal(0), 'list', 'Ghost')
+        ctx.after_loop = None
+        try:
+            it.run_body(g.fn, g.env)
+        except PyExc as e:
+            ctx.oblige('_standardisedata: never raises on a rectangular source', z3.BoolVal(False), e.origin or '')
+    h.explore(body)
